@@ -7,9 +7,9 @@ from gen import search as G
 
 ID = "C01"
 LEVEL = "proof"
-LEAN_IMPORTS = ["WM.Props.C01", "WM.Props.C01Cursor", "WM.Props.C01Numeric"]
+LEAN_IMPORTS = ["WM.Props.C01", "WM.Props.C01Cursor", "WM.Props.C01Numeric", "WM.Props.C01Multi"]
 THEOREMS = ["WM.C01.matcher_den", "WM.C01.segments", "WM.C01.paths_agree", "WM.C01.docs_overrides",
-            "WM.C01.cursor_den", "WM.C01.cursor_answers", "WM.C01.numeric_range_compiled"]
+            "WM.C01.cursor_den", "WM.C01.cursor_answers", "WM.C01.numeric_range_compiled", "WM.C01.term_top"]
 _LIST = ("list level: about WM.Compile.compile, the posting list a per-segment matcher tree enumerates, not about "
          "the cursors of whoosh/matching (synchronised advance, skip_to, the AndNot/Inverse leaks are invisible "
          "to it); the Lean bridge to the matcher family's cursor model is cursor_den (term/null/Every leaves, "
@@ -39,9 +39,18 @@ PARTIAL = {
                           "Query.docs overrides (docs_overrides); sortedby and filter/mask (C14) are not parameters "
                           "of a theorem here: they are compared on the real code (nine paths per query in every run).",
     "WM.C01.docs_overrides": _LIST + _POS + "the run is segment by segment; Query.docs on a multi-segment searcher "
-                             "runs one matcher over the MultiReader (MultiMatcher, C11's multi node; FuzzyTerm there "
-                             "expands through MultiReader.terms_within - recorded finding); compared on the real "
-                             "code by the path q.docs.",
+                             "runs one matcher over the MultiReader: for a Term that MultiMatcher is in Lean "
+                             "(term_top); for compound and multi-term queries on the top searcher (FuzzyTerm there "
+                             "expands through MultiReader.terms_within - recorded finding) it is compared on the real "
+                             "code by the paths q.docs and q.matcher:skip (the top matcher moved with skip_to only, "
+                             "every landing point checked against the specification's answer).",
+    "WM.C01.term_top": "Term queries only (any boost; PosQ for the answer conjunct): the MultiMatcher that "
+                       "Searcher.postings builds on a multi-segment searcher over ListMatcher-modelled posting readers "
+                       "(the block structure of the real W3 leaf matcher is C10/C11's leaf model), with C11's "
+                       "multi_constructor_wf; compound queries over such leaves on the top searcher are not restated "
+                       "(their constructors are those of cursor_den, over multi leaves instead of list leaves) and are "
+                       "covered by the end-to-end paths q.docs / q.matcher:skip; tied to the code by stepping the real "
+                       "Term.matcher(top searcher) and the model with one next/skip_to/replace program (stats top:*).",
     "WM.C01.cursor_den": "fragment CursorOK: term, null and Every leaves; Prefix/Wildcard/TermRange/FuzzyTerm/Regex "
                          "as expansions against the segment lexicon (0/1/many terms, constantscore through "
                          "ConstantScoreWrapperMatcher resp. the all_ids() pre-read); And/Or/DisjunctionMax through the "
@@ -62,7 +71,9 @@ PARTIAL = {
 RULE = ("random schema (TEXT with positions/chars, KEYWORD, ID, NUMERIC 8..64 bit, DATETIME, BOOLEAN), corpus over "
         "an ASCII + non-ASCII vocabulary, history (1-5 commits, deletes, merges, W3Codec(blocklimit 1-4 or default)) "
         "and query trees (depth <= 5, all public node types; AndNot/AndMaybe/Require with sparse required sides "
-        "nested under And/Or) per sub-seed; in 30% of the cases field t is phrase-focused: a 2-4 word vocabulary, "
+        "nested under And/Or) per sub-seed; a stream of 2-5 unmerged segments with a 24/36-word vocabulary over 12-30 "
+        "documents (segment lexicons differ) with prefix-less Wildcard/Regex expansions bare and as clauses, one third "
+        "of them read through old_searcher.refresh() after the last commits; in 30% of the cases field t is phrase-focused: a 2-4 word vocabulary, "
         "documents that are random sequences over it or a planted phrase whose non-last words are doubled / followed "
         "by fillers, phrases of 3-5 words with slop 1-5 (bare and as clauses of compounds); two 2300-document single-segment corpora per run cross the array "
         "union's 2048-document part boundary (with Or of >= 3 sparse plain terms, bare and under And/AndNot/Require/"
@@ -110,7 +121,8 @@ MANIFEST = {
                  "against the implementation + end-to-end run of the public API against the Lean specification",
 }
 EXPLANATION = ("expected sets come from WM.Search.answer/hits evaluated by the compiled Lean driver; observed from "
-               "search(limit=None|1|3|10), terms=True, scored=False, sortedby, docs_for_query, Query.docs")
+               "search(limit=None|1|3|10), terms=True, scored=False, sortedby, docs_for_query, Query.docs, and "
+               "Query.matcher(top searcher) moved with skip_to (every landing point = first answer >= target)")
 
 
 def absorb(ctx, results, component):
@@ -165,19 +177,26 @@ def interleave(*streams):
 
 
 def run_jobs(ctx, jobs, deadline, fn=None, batch=32):
-    """Run the jobs in batches of worker processes until they are done or `deadline` seconds of the
-    check have elapsed (the machine is shared: the case budget is what an idle machine does in
-    well under the tier's time limit; a loaded one stops earlier instead of overrunning)."""
+    """Run the jobs in worker processes until they are done or `deadline` seconds of the check have
+    elapsed (the machine is shared: the case budget is what an idle machine does in well under the
+    tier's time limit; a loaded one stops earlier instead of overrunning).  One pool for all jobs (no
+    barrier between batches); a job that would start after the deadline is not run (counted) - so the
+    check ends at most one job's duration after the deadline.  Jobs are dispatched in list order."""
+    import time
     fn = fn or G.work
-    done, results = [], []
-    for i in range(0, len(jobs), batch):
-        if i and ctx.elapsed() > deadline:
-            ctx.stat("jobs-not-run-deadline", len(jobs) - i)
-            ctx.note("deadline %ds reached after %d of %d generated cases" % (deadline, i, len(jobs)))
-            break
-        part = jobs[i:i + batch]
-        results += ctx.pmap(fn, part, chunksize=2)
-        done += part
+    t_end = ctx.t0 + deadline
+    first = set(str(j[0]) for j in jobs[:16])
+
+    def guarded(job):
+        if str(job[0]) not in first and time.time() > t_end:
+            return None
+        return fn(job)
+    out = ctx.pmap(guarded, jobs, chunksize=1)
+    done = [j for j, r in zip(jobs, out) if r is not None]
+    results = [r for r in out if r is not None]
+    if len(done) < len(jobs):
+        ctx.stat("jobs-not-run-deadline", len(jobs) - len(done))
+        ctx.note("deadline %ds reached: %d of %d generated cases run" % (deadline, len(done), len(jobs)))
     return done, results
 
 
@@ -193,8 +212,17 @@ def run(ctx):
         huge = dict(opts, ndocs=2300, nseg=1, nq=3, max_shrinks=2, maxdepth=3, vocab_n=40, sparse_or=2, plant=0.0)
         bigs = [("%s:%d:big%d" % (ctx.pid, ctx.seed, i), big) for i in range(ctx.budget(6, 60))]
         huges = [("%s:%d:huge%d" % (ctx.pid, ctx.seed, i), huge) for i in range(ctx.budget(2, 10))]
-        jobs = corpus_jobs(ID, scratch) + huges + interleave(main, bigs)
-        done, results = run_jobs(ctx, jobs, 40 if ctx.tier == "quick" else 480, batch=16 if ctx.tier == "quick" else 32)
+        # several unmerged segments whose lexicons differ (large vocabulary, few documents per segment), with
+        # lexicon expansions that have no literal prefix and AndNot over sparse/dense sides: what is computed
+        # per segment (expansions, caches keyed by the index generation) and what crosses segments
+        # (MultiMatcher under Query.docs / Query.matcher on the top searcher)
+        ms = [("%s:%d:ms%d" % (ctx.pid, ctx.seed, i),
+               dict(opts, nq=5, ndocs=(12, 20, 30)[i % 3], nseg=(3, 4, 5, 2)[i % 4], nomerge=True, noprefix=2,
+                    vocab_n=(24, 36)[i % 2], plant=0.0, refresh=(i % 3 == 1)))
+              for i in range(ctx.budget(24, 240))]
+        # (the slow 2300-document cases are dispatched first and run beside the small ones)
+        jobs = huges + corpus_jobs(ID, scratch) + interleave(ms, main, bigs)
+        done, results = run_jobs(ctx, jobs, 30 if ctx.tier == "quick" else 480)
     absorb(ctx, results, "Compile.compile")
     floor_check(ctx)
     ctx.sample({"seed": results[-1]["seed"], "stats": results[-1]["stats"]})
